@@ -31,6 +31,8 @@ def compare(ctx, job, m, o, tag, failed):
     if "rejected" in of:
         return False
     if "rejected" in o:
+        if job["flat"]["selected"] != IR.UNSET and o["rejected"] == "MissingInputError":
+            return False     # under a graph-level select the nested graph (narrowed as a unit) may need inputs the flat one does not
         return ctx.violation("nested-rejected", wit, f"nested variant rejected while the flat graph runs: {o}")
     if o["status"] != of["status"]:
         return ctx.violation("status", wit, f"nested {o['status']} flat {of['status']}")
@@ -86,7 +88,8 @@ def variants(rng, prog, thorough):
             hidden = []
             # hide only secondary outputs of multi-output inner nodes (select() narrows the INPUTS of a
             # graph to what the selection needs; hiding a whole node would change the interface)
-            hid_cand = [o for n in inner_nodes if len(n["outputs"]) >= 2 for o in n["outputs"][1:] if o not in used_outside]
+            outer_sel = set(prog["selected"]) if prog["selected"] != IR.UNSET else set()
+            hid_cand = [o for n in inner_nodes if len(n["outputs"]) >= 2 for o in n["outputs"][1:] if o not in used_outside and o not in outer_sel]
             if hid_cand and rng.random() < 0.5:
                 hidden = [rng.choice(hid_cand)]
                 sel = [o for o in inner_out if o not in hidden]
@@ -95,6 +98,8 @@ def variants(rng, prog, thorough):
                 p2 = gen.nest(prog, S, rename_in=rin, rename_out=rout, inner_bound=ib, pos=pos, selected=sel)
             except Exception:  # noqa: BLE001
                 continue
+            if rng.random() < 0.5:
+                [n for n in p2["nodes"] if n["kind"] == "graph"][0]["materialize"] = True   # wrapper used before it is renamed
             depth = 1
             if rng.random() < 0.35:
                 inner = [n for n in p2["nodes"] if n["kind"] == "graph"][0]
@@ -141,6 +146,11 @@ def make_pairs(tier, rng):
         n_rand -= 1
     pairs = []
     for prog, prov in bases:
+        if rng.random() < 0.3:
+            outs_all = [o for n in prog["nodes"] for o in n["outputs"]]
+            if len(outs_all) >= 2:
+                prog = dict(prog, selected=rng.sample(outs_all, rng.randint(1, len(outs_all) - 1)))   # same graph-level select on the flat and the nested graph
+                used = {p for n in prog["nodes"] for p in n["inputs"]}
         mode = rng.choice(["sync", "async"])
         jf = gen.job(0, prog, prov, mode=mode)
         of, _, _ = predict.try_real(jf)
@@ -164,6 +174,8 @@ def check_specs(ctx, pairs):
     res, stats = specs.spec_eval(sjobs)
     ctx.add_tlc(stats)
     for j, tag in pairs:
+        if j["flat"]["selected"] != IR.UNSET:
+            continue     # a graph-level select narrows a flat graph node by node but a nested graph as a unit: inputs are not compared
         sn, sf = res[2 * j["id"]], res[2 * j["id"] + 1]
         pub = {k: v for k, v in j.items() if not k.startswith("_")}
         if (sn["required"], sn["optional"]) != (sf["required"], sf["optional"]):
